@@ -40,7 +40,7 @@ def main():
         setup_cmd="make -C /verif -j16 all",
         hooks=dict(
             guard="MTBL_VERIF",
-            enable="every repo translation unit is compiled by /verif/Makefile from /repo's working tree with -DMTBL_VERIF plus per-file seams given on the compiler command line (-include sim/seams/pthread.h for threadpool.c; -Dwrite/-Dopen/-Dclose/-Ddup=sim_* for writer.c; -Dmmap/-Dmunmap/-Dopen/-Dclose=sim_* for reader.c; -Dmkstemp/-Dunlink/-Dclose=sim_* for sorter.c; -Dclock_gettime=sim_clock_gettime for fileset.c); no installed library or in-tree object is used",
+            enable="every library source listed in /repo/Makefile.am (mtbl_libmtbl_la_SOURCES) is compiled by /verif/Makefile from /repo's working tree with -DMTBL_VERIF plus seams given on the compiler command line, no source edit: -include sim/seams/pthread.h for every file (pthread_* -> the deterministic scheduler; pass-through while it is off); -Dwrite/-Dwritev/-Dpwrite/-Dpwritev/-Dopen/-Dclose/-Ddup=sim_* for writer.c; -Dmmap/-Dmunmap/-Dopen/-Dclose=sim_* for reader.c; -Dmkstemp/-Dmkostemp/-Dopen/-Dunlink/-Dclose=sim_* for sorter.c; -Dclock_gettime=sim_clock_gettime for fileset.c; -Wl,--wrap=__assert_fail for the assertion trap; no installed library or in-tree object is used",
             baseline_off_cmd="make -C /repo check",
             source_commits=repo_commits(),
             add_only=True,
